@@ -153,7 +153,19 @@ type runnablePipeline struct {
 	// which Stop admits), that fatal mark is lost. StartWithBackoff checks
 	// this marker so a force-stopped pipeline is never restarted by recovery.
 	forceStopped atomic.Bool
+
+	// gracefulStop holds the reason of a graceful stop that at least one source
+	// node of this run accepted (noStopReason for a user stop, which carries
+	// none). The drain of a deliberate stop can itself end with a transient
+	// error - a destination's teardown fails, a batch in flight hits a write
+	// error - and that must not be mistaken for a spontaneous failure: the
+	// cleanup goroutine finalizes such a run as stopped instead of handing it to
+	// recovery, which would restart a pipeline the operator just stopped.
+	gracefulStop atomic.Pointer[error]
 }
+
+// noStopReason marks a graceful stop without a reason (a user stop).
+var noStopReason = cerrors.New("stopped by user")
 
 // ConnectorService can fetch and create a connector instance, and report when
 // every position/state write already queued for persistence has been
@@ -408,6 +420,17 @@ func (s *Service) stopGraceful(ctx context.Context, rp *runnablePipeline, reason
 			if err != nil {
 				s.logger.Err(ctx, err).Str(log.NodeIDField, n.ID()).Msg("stop failed")
 				errs = append(errs, err)
+				continue
+			}
+			// This node accepted the stop. Without a reason (a user stop) or
+			// with ErrGracefulShutdown the run is now stopping on purpose; any
+			// other reason is an error the source node reports as its own
+			// failure, which takes the usual path (recovery).
+			switch {
+			case reason == nil:
+				rp.gracefulStop.CompareAndSwap(nil, &noStopReason)
+			case cerrors.Is(reason, pipeline.ErrGracefulShutdown):
+				rp.gracefulStop.CompareAndSwap(nil, &reason)
 			}
 		}
 	}
@@ -1038,6 +1061,23 @@ func (s *Service) runPipeline(ctx context.Context, rp *runnablePipeline) error {
 			if cerrors.IsFatalError(err) {
 				// we use %+v to get the stack trace too
 				if err := s.pipelines.UpdateStatus(ctx, rp.pipeline.ID, pipeline.StatusDegraded, fmt.Sprintf("%+v", err)); err != nil {
+					return err
+				}
+			} else if reason := rp.gracefulStop.Load(); reason != nil {
+				// The run was being stopped on purpose and the drain itself
+				// surfaced a transient error. Recovering would restart a
+				// pipeline that an operator (or the shutting down server) just
+				// stopped: finalize it as stopped instead, like a clean drain
+				// (the arch-v2 engine does the same, see its intentionalStop).
+				s.logger.Warn(ctx).Err(err).
+					Str(log.PipelineIDField, rp.pipeline.ID).
+					Msg("pipeline stopped on request, its drain ended with an error")
+				err = nil
+				status := pipeline.StatusUserStopped
+				if isGracefulShutdown.Load() || cerrors.Is(*reason, pipeline.ErrGracefulShutdown) {
+					status = pipeline.StatusSystemStopped
+				}
+				if err := s.pipelines.UpdateStatus(ctx, rp.pipeline.ID, status, ""); err != nil {
 					return err
 				}
 			} else {
